@@ -69,7 +69,7 @@ def processCase (c : Case) (verbose : Bool) : List String :=
              r.prefixOk, r.parsed)
         | _, .ok _ r => (false, false, r.prefixOk, r.parsed)
         | _, _ => (true, true, true, true)
-      let props := Obs.evalAll c.variant c.attr item m c.real
+      let props := Obs.evalAll c.variant c.attr item c.input m c.real c.info
       let head := s!"RES {c.id} modelled=1 rt={bstr rt} model={outcomeKind m} real={realKind c.real} agree={bstr agree} tok={bstr tok} struct={bstr struct_} prefix={bstr prefixOk} parsed={bstr parsed} {props}"
       if verbose then
         let mt := match m with
